@@ -368,10 +368,11 @@ inline void m12(const Edge& e, const Parsed& P) {
 		if (!tx_empty(e.post.req)) flag(C12, "load-left-request", e, "request outstanding after load");
 #if VX_PLANS
 		{ // the loader starts from an empty plan; what its exit/enter/reenter callbacks append during load() is its plan afterwards
-			TxS ap[MAXPLAN + 1]; int na = 0; bool edited = false;
-			for (int i = 0; i < e.nev; ++i) { const Ev& v = e.tr[i]; if (v.kind == EV_MARK) break; if (v.kind == EV_PLAN_APPEND && v.r && (v.meth == M_ENTER || v.meth == M_REENTER) && na < MAXPLAN) ap[na++] = TxS{v.a, v.b, static_cast<uint8_t>(v.c ? 1 : 0), v.c}; if (v.kind == EV_PLAN_CLEAR || v.kind == EV_PLAN_REMOVE) edited = true; }
+			TxS ap[2 * MAXPLAN + 2]; int na = 0; bool edited = false;
+			if (A == NONE8) for (int k = 0; k < e.pre.planlen && k < MAXPLAN; ++k) ap[na++] = e.pre.plan[k];   // an inactive (manual) loader keeps the plan it was given before
+			for (int i = 0; i < e.nev; ++i) { const Ev& v = e.tr[i]; if (v.kind == EV_MARK) break; if (v.kind == EV_PLAN_APPEND && v.r && (v.meth == M_ENTER || v.meth == M_REENTER) && na < 2 * MAXPLAN) ap[na++] = TxS{v.a, v.b, static_cast<uint8_t>(v.c ? 1 : 0), v.c}; if (v.kind == EV_PLAN_CLEAR || v.kind == EV_PLAN_REMOVE) edited = true; }
 			if (!edited && na) { bool same = e.post.planlen == na; for (int k = 0; same && k < na; ++k) same = task_eq(e.post.plan[k], ap[k]);
-				if (!same) flag(C12, "load-lost-plan-built-by-callbacks", e, "enter()/reenter() appended %d task(s) during load(), the loader's plan holds %d afterwards", na, e.post.planlen); } }
+				if (!same) flag(C12, "load-lost-plan-built-by-callbacks", e, "the loader's plan should hold %d task(s) after load() (appended by enter()/reenter() during the call%s), it holds %d", na, A == NONE8 ? ", plus what the inactive loader held" : "", e.post.planlen); } }
 #endif
 	}
 #else
